@@ -100,7 +100,7 @@ def run_bounded(b, repo, tier, seed):
     env['PYTHONHASHSEED'] = '0'
     t0 = time.time()
     try:
-        p = subprocess.run(cmd, capture_output=True, text=True, env=env, timeout=3600)
+        p = subprocess.run(cmd, capture_output=True, text=True, env=env, timeout=1200)
     except subprocess.TimeoutExpired:
         return {'name': b.name, 'error': 'timeout', 'wall_s': time.time() - t0}
     out = p.stdout.strip().split('\n')[-1] if p.stdout.strip() else ''
@@ -382,7 +382,11 @@ def script_replay(script, default_fn='RUN', extra=()):
         cmd = [VENV_PY, os.path.join(VERIF, script), '--repo', repo, '--fn', fn, '--seed', str(seed)] + list(extra)
         env = dict(os.environ)
         env['PYTHONPATH'] = repo + os.pathsep + VERIF
-        p = subprocess.run(cmd, capture_output=True, text=True, env=env, timeout=900)
+        try:
+            p = subprocess.run(cmd, capture_output=True, text=True, env=env, timeout=400)
+        except subprocess.TimeoutExpired:
+            rec['replay_error'] = 'replay timed out'
+            return None
         out = p.stdout.strip().split('\n')[-1] if p.stdout.strip() else ''
         try:
             d = json.loads(out)
